@@ -1,7 +1,7 @@
 (* C15: concrete instances - non-vacuity of the theorems and bad traces the monitor rejects. *)
 From SC Require Import Lib.Prelude Lib.Int Lib.Host Model.ClaimIssuer Model.Identity Run.C15
   Proofs.C15Base Proofs.C15Bytes Proofs.C15Verify Proofs.C15Issuer Proofs.C15Registry Proofs.C15Ident
-  Proofs.C15World Proofs.C15Final Proofs.C15Monitor.
+  Proofs.C15World Proofs.C15Final Proofs.C15Monitor Proofs.C15Foreign.
 
 (* contracts: registry 0, identity registry 1, identity 2, issuers 3 and 4; account 10 *)
 Definition ex_pk : bytes := B 32 7.
@@ -13,7 +13,7 @@ Definition ex_msg (nonce : Z) : bytes := build_claim_message ex_net [3] [2] 1 no
 
 Definition ex_hdr : hdr :=
   HDR ex_net 50 ex_xdr [(101, ex_pk, ex_msg 0, ex_sig, 0)] 15 50 50 20 15
-      [0%N] [1%N] [2%N] [3%N; 4%N] [10%N] [3%N; 4%N; 9%N] [1; 2] [(ex_pk, 101)] [(2%N, 1, ex_data)].
+      [0%N] [1%N] [2%N] [3%N; 4%N] [10%N] [3%N; 4%N; 9%N] [1; 2] [(ex_pk, 101)] [(2%N, 1, ex_data)] [].
 
 Definition ex_claim : claim := CL 1 101 3%N (ex_pk ++ ex_sig) ex_data 0.
 
@@ -178,7 +178,7 @@ Example monitor_rejects_malformed :
   map mon_of
     [(ex_hdr, tamper_last (fun o => set_verify o []) (mt (ex_history ++ [RemoveIssuer 0%N 3%N])));
      (ex_hdr, []);
-     (HDR ex_net 50 ex_xdr [] 15 50 50 20 15 [0%N] [1%N] [2%N] [3%N] [] [3%N] [1] [] [], mt ex_history)]
+     (HDR ex_net 50 ex_xdr [] 15 50 50 20 15 [0%N] [1%N] [2%N] [3%N] [] [3%N] [1] [] [] [], mt ex_history)]
   = [9%N; 1%N; 1%N].
 Proof. vm_compute. reflexivity. Qed.
 
@@ -218,3 +218,69 @@ Proof.
   apply andb_true_iff in H2. destruct H2 as [_ H2].
   apply bytes_eqb_spec in H1. apply bytes_eqb_spec in H2. congruence.
 Qed.
+
+(* ---------------- foreign issuers ---------------- *)
+(* contract 5 is a foreign issuer: its is_claim_valid returns the unit value for scheme numbers 200
+   and 207 and something else (false, true, an error code, a trap) for every other scheme; 9 is not a
+   contract.  Both are trusted for topic 1; the identity holds a claim of 5 with scheme 201. *)
+Definition fx_hdr : hdr :=
+  HDR ex_net 50 ex_xdr [] 15 50 50 20 15
+      [0%N] [1%N] [2%N] [3%N] [10%N] [3%N; 5%N; 9%N] [1; 2] [] [] [(5%N, [200; 207])].
+Definition fx_setup : list call :=
+  [AddTopic 0%N 1; AddIssuer 0%N 5%N [1]; AddIssuer 0%N 9%N [1]; AddIdentity 1%N 10%N 2%N 1; SetCti 0%N; SetIrs 1%N].
+Definition fx_claim (scheme : Z) : claim := CL 1 scheme 5%N [1] [2] 0.
+Definition fx_mt (ks : list call) : list item := model_trace fx_hdr (init_of fx_hdr) (map (fun k => (k, [])) ks).
+Definition fx_outs (ks : list call) : list outcome := map (fun it : item => snd (fst it)) (fx_mt ks).
+
+(* a non-unit answer is not a confirmation: add_claim refuses, a claim stored behind the issuer's
+   back does not verify, validate_claim says false; the unit answer confirms (an always-yes issuer
+   is an issuer); and the checker accepts the model's run *)
+Example foreign_issuer_model :
+  fx_outs (fx_setup ++ [AddClaim 2%N (fx_claim 201); ForceClaim 2%N (5%N, 1) 1 (fx_claim 201); Verify 10%N;
+                        ValidateClaim (fx_claim 201) 1 5%N 2%N; IsClaimValid 5%N 2%N 1 202 [] [];
+                        ValidateClaim (fx_claim 200) 1 5%N 2%N; ValidateClaim (fx_claim 200) 1 9%N 2%N;
+                        AddClaim 2%N (fx_claim 207); Verify 10%N; RemoveIssuer 0%N 5%N; Verify 10%N])
+  = [Ok VUnit; Ok VUnit; Ok VUnit; Ok VUnit; Ok VUnit; Ok VUnit;
+     Fail; Ok VUnit; Fail; Ok (VBool false); Fail; Ok (VBool true); Ok (VBool false);
+     Ok (VCid (5%N, 1)); Ok VUnit; Ok VUnit; Fail]
+  /\ check (fx_hdr, fx_mt (fx_setup ++ [AddClaim 2%N (fx_claim 201); ForceClaim 2%N (5%N, 1) 1 (fx_claim 201); Verify 10%N;
+                                       AddClaim 2%N (fx_claim 207); Verify 10%N])) = (0%N, 0%N, 0%N).
+Proof. vm_compute. split; reflexivity. Qed.
+
+(* the seeded change "the call did not trap = confirmed": the issuer answered `false` (scheme 201),
+   the implementation reports the account as verified / validate_claim as true / add_claim as stored *)
+Definition fx_bad : list call := fx_setup ++ [ForceClaim 2%N (5%N, 1) 1 (fx_claim 201); Verify 10%N].
+Example monitor_rejects_non_unit_answer_counted :
+  map mon_of
+    [(fx_hdr, tamper_last (fun o => set_verify o [true]) (fx_mt (fx_setup ++ [ForceClaim 2%N (5%N, 1) 1 (fx_claim 201)])));
+     (fx_hdr, fx_mt (fx_setup ++ [ForceClaim 2%N (5%N, 1) 1 (fx_claim 201)])
+                ++ [(ValidateClaim (fx_claim 201) 1 5%N 2%N, Ok (VBool true),
+                     observe fx_hdr (run (cfg_of fx_hdr) (init_of fx_hdr) (fx_setup ++ [ForceClaim 2%N (5%N, 1) 1 (fx_claim 201)])))]);
+     (fx_hdr, fx_mt fx_setup
+                ++ [(AddClaim 2%N (fx_claim 201), Ok (VCid (5%N, 1)),
+                     observe fx_hdr (run (cfg_of fx_hdr) (init_of fx_hdr) (fx_setup ++ [ForceClaim 2%N (5%N, 1) 1 (fx_claim 201)])))]);
+     (* the non-contract address 9 reported as confirming *)
+     (fx_hdr, tamper_last (map_cells confirmed_cell) (fx_mt (fx_setup ++ [ForceClaim 2%N (9%N, 1) 1 (CL 1 200 9%N [] [] 0)])))]
+  = [7%N; 8%N; 7%N; 7%N].
+Proof. vm_compute. reflexivity. Qed.
+
+(* ---------------- duplicate entries in the registry ---------------- *)
+(* a topic list naming a topic twice is accepted and the issuer is listed twice under the topic: every
+   other clause of the monitor reads the lists as sets, [registry_nodup] rejects the state *)
+Definition dup_cti (co : cti_obs) : cti_obs :=
+  CO (co_topics co) (co_issuers co)
+     (map (res_map (fun l => l ++ l)) (co_tissuers co)) (map (res_map (fun l => l ++ l)) (co_itopics co))
+     (res_map (map (fun tl : Z * list addr => (fst tl, snd tl ++ snd tl))) (co_map co))
+     (co_trusted co) (co_has co).
+Definition dup_obs (o : obs) : obs :=
+  {| o_now := o_now o; o_ctis := map dup_cti (o_ctis o); o_irss := o_irss o; o_idents := o_idents o;
+     o_issuers := o_issuers o; o_ver := o_ver o |}.
+Example monitor_rejects_duplicate_topic_list :
+  co_itopics (hd (CO [] [] [] [] Fail [] []) (o_ctis (dup_obs (last_obs [AddTopic 0%N 1; AddIssuer 0%N 3%N [1]]))))
+    = [Ok [1; 1]; Fail; Fail] /\
+  mon_of (ex_hdr, mt [AddTopic 0%N 1] ++
+                  [(AddIssuer 0%N 3%N [1; 1], Ok VUnit, dup_obs (last_obs [AddTopic 0%N 1; AddIssuer 0%N 3%N [1]]))]) = 2%N /\
+  fx_outs [AddTopic 0%N 1; AddTopic 0%N 2; AddIssuer 0%N 3%N [1; 1]; AddIssuer 0%N 3%N [1; 2; 1]; AddIssuer 0%N 3%N [2; 1];
+           UpdateIssuer 0%N 3%N [2; 2]; UpdateIssuer 0%N 3%N [1; 1]; UpdateIssuer 0%N 3%N [1]]
+    = [Ok VUnit; Ok VUnit; Fail; Fail; Ok VUnit; Fail; Fail; Ok VUnit].
+Proof. vm_compute. repeat split; reflexivity. Qed.
